@@ -464,8 +464,8 @@ func init() {
 		ops := []c18op{creationOp("CreateClass"), creationOp("basket.Create"), marketOp(), basketOp()}
 		type result struct {
 			accepted, rejected, opsRun int64
-			findings               []runner.Finding
-			rejectSamples          []string
+			findings                   []runner.Finding
+			rejectSamples              []string
 		}
 		var mu sync.Mutex
 		total := result{}
